@@ -64,6 +64,9 @@ MUTATORS = [
     _m("ANcreate", V("an"), 1000, 1, 0, must=False), _m("ANcreatef", V("an"), 2, must=False), _m("ANwriteann", V("ann"), b"changed text", 12),
     _m("Htrunc", V("aid"), 2), _m("Hwrite", V("aid"), 3, b"xyz"), _m("Happendable", V("aid"), must=False),
     _m("HLconvert", V("aid"), 8, 2),
+    # the same through read access elements on every special-element kind (linked, compressed, external)
+    _m("Hwrite", V("aidl"), 3, b"xyz"), _m("Hwrite", V("aidc"), 3, b"xyz"), _m("Hwrite", V("aidx"), 3, b"xyz"),
+    _m("Htrunc", V("aidl"), 2, must=False), _m("Htrunc", V("aidx"), 2, must=False),
 ]
 READERS = [
     lambda p: p.call("i", "Hgetelement", V("f"), 1000, 1, Out(44)),
@@ -141,6 +144,9 @@ def run_case(case):
         p.call("i", "SDgetdimid", V("s0"), 0, bind="d0")
         p.call("i", "Hopen", "combo.hdf", acc, 0, bind="f")
         p.call("i", "Hstartread", V("f"), 1000, 1, bind="aid")
+        p.call("i", "Hstartread", V("f"), 1002, 1, bind="aidl")
+        p.call("i", "Hstartread", V("f"), 1003, 1, bind="aidc")
+        p.call("i", "Hstartread", V("f"), 1004, 1, bind="aidx")
         p.call("i", "Vinitialize", V("f"))
         p.call("i", "VSfind", V("f"), "table", bind="vr")
         p.call("i", "VSattach", V("f"), V("vr"), "r", bind="vs")
@@ -172,6 +178,8 @@ def run_case(case):
         p.call("i", "Vdetach", V("g"))
         p.call("i", "Vfinish", V("f"))
         p.call("i", "Hendaccess", V("aid"))
+        for x in ("aidl", "aidc", "aidx"):
+            p.call("i", "Hendaccess", V(x))
         lclose = p.call("i", "Hclose", V("f"))
         for i in range(3):
             p.call("i", "SDendaccess", V("s%d" % i))
